@@ -151,6 +151,8 @@ def parse_kani_output(text):
             m = _VERDICT.match(ln)
             if m:
                 h["status"] = m.group(1)
+            if ln.startswith("CBMC timed out") or "out of memory" in ln.lower():
+                h["status"] = "TIMEOUT"
             m = _TIME.match(ln)
             if m:
                 h["time_s"] = float(m.group(1))
@@ -175,7 +177,7 @@ def parse_kani_output(text):
 
 
 def run_group(group, harnesses, timeout_s=900, jobs=None, playback=False, extra_args=None,
-              unwind=None, keep_scratch=False, log_path=None):
+              unwind=None, keep_scratch=False, log_path=None, harness_timeout_s=240):
     """Run the given harnesses of a group against the current /repo working tree."""
     g = GROUPS[group]
     t0 = time.time()
@@ -198,6 +200,7 @@ def run_group(group, harnesses, timeout_s=900, jobs=None, playback=False, extra_
                "-j", str(jobs), "--output-format", "terse"]
         if g["features"]:
             cmd += ["--features", g["features"]]
+        cmd += ["-Z", "unstable-options", "--harness-timeout", "%ds" % harness_timeout_s]
         if playback:
             k = cmd.index("-j"); del cmd[k:k + 4]
             cmd += ["-Z", "concrete-playback", "--concrete-playback=print"]
